@@ -80,6 +80,10 @@ type sqlExec struct {
 	overlay map[rowKey]any
 	ctes    map[string]*relation
 	st      *stmtState
+	// pending: the rows of the INSERT being executed that were built (BEFORE triggers run) but are not stored yet.
+	// PostgreSQL inserts row by row, so a BEFORE ROW trigger sees the rows of the same statement processed before
+	// it; the interpreter builds all rows first, and lets triggers look here for those earlier rows.
+	pending [][]Val
 	seqUsed int
 	probes  []string
 	taint   string
@@ -856,6 +860,8 @@ func (x *sqlExec) runInsert(s *insertStmt, outer *scope) (*relation, int64, erro
 	}
 	var rows []newRow
 	names := def.colNames()
+	x.pending = nil
+	defer func() { x.pending = nil }()
 	for _, sv := range src {
 		given := map[string]Val{}
 		for i, c := range s.cols {
@@ -904,6 +910,7 @@ func (x *sqlExec) runInsert(s *insertStmt, outer *scope) (*relation, int64, erro
 		nr.key = k
 		nr.uniq = def.uniqKeys(nr.vals, k)
 		rows = append(rows, nr)
+		x.pending = append(x.pending, nr.vals)
 	}
 	// ON CONFLICT target must name a unique constraint
 	var arbiter *uniqDef
